@@ -386,6 +386,12 @@ def judgeExtra2 (hNew hOld : HCtx) (op res : Array String) (dump : Option St) : 
       let f2 := chk (es.all fun v => veDirOK s v kd) "C18" "voronoi-direction-vector-wrong" (fun _ => "")
       let f3 := chk (cs.length + 1 == s.nF && cs.all fun c => c.1 != 0 && c.1 < s.nF) "C18" "voronoi-vertex-count" (fun _ => "")
       let badc := cs.filter fun c => !(centerOK s c.1 c.2 kc)
+      -- a non-finite centre is tolerated only for a sliver face whose conditioning L²/|D| exceeds
+      -- the precision of the scalar type (the float formula then divides by a rounded zero)
+      let sliver := fun (f : Nat) =>
+        let (l1, l2, l3, dd) := faceData s f
+        decide (dd.natAbs * 2 ^ (if f32 then 14 else 44) ≤ (max l1 (max l2 l3)).natAbs)
+      let nonfinite := nonfinite.filter fun x => !(x.2.all sliver)
       let f4 := chk (badc.isEmpty && nonfinite.isEmpty) "C18" "voronoi-vertex-not-circumcenter"
         (fun _ => s!"faces={badc.map (·.1)} nonfinite={nonfinite.length}")
       let f5 := chk (fs.length == s.nV && fs.all fun (site, el) =>
